@@ -268,9 +268,11 @@ Definition xform_check (B : backend) (C : cfg) (OR : oracles) (ts : list tok) : 
   end.
 
 (* the same tokens under both back ends (each with its own configuration record): equal after erase_be *)
-Definition agree_check (CD CS : cfg) (OR : oracles) (ts : list tok) : outcome bool :=
+Definition agree_check (CD CS : cfg) (OR : oracles) (ts : list tok) : outcome (bool * bool) :=
   match render_doc Docutils CD OR ts, render_doc Sphinx CS OR ts with
-  | Good (d, _), Good (s, _) => Good (trees_agree (o_nlt OR) d s)
+  | Good (d, _), Good (s, _) =>
+      (* (the forest is in the static grammar of both back ends - no inv: / path: / project: link ... -, agreement) *)
+      Good (static Docutils CD OR ts && static Sphinx CS OR ts, trees_agree (o_nlt OR) d s)
   | Bad e, _ => Bad e
   | _, Bad e => Bad e
   end.
